@@ -10,12 +10,24 @@ Model/World.vos Model/World.vok Model/World.required_vos: Model/World.v Model/Va
 Model/Step.vo Model/Step.glob Model/Step.v.beautified Model/Step.required_vo: Model/Step.v Model/Val.vo Model/Syntax.vo Model/World.vo
 Model/Step.vio: Model/Step.v Model/Val.vio Model/Syntax.vio Model/World.vio
 Model/Step.vos Model/Step.vok Model/Step.required_vos: Model/Step.v Model/Val.vos Model/Syntax.vos Model/World.vos
-Model/Oracle.vo Model/Oracle.glob Model/Oracle.v.beautified Model/Oracle.required_vo: Model/Oracle.v Model/Val.vo Model/Syntax.vo Model/World.vo Model/Step.vo
-Model/Oracle.vio: Model/Oracle.v Model/Val.vio Model/Syntax.vio Model/World.vio Model/Step.vio
-Model/Oracle.vos Model/Oracle.vok Model/Oracle.required_vos: Model/Oracle.v Model/Val.vos Model/Syntax.vos Model/World.vos Model/Step.vos
+Model/Spec.vo Model/Spec.glob Model/Spec.v.beautified Model/Spec.required_vo: Model/Spec.v Model/Val.vo Model/Syntax.vo
+Model/Spec.vio: Model/Spec.v Model/Val.vio Model/Syntax.vio
+Model/Spec.vos Model/Spec.vok Model/Spec.required_vos: Model/Spec.v Model/Val.vos Model/Syntax.vos
+Model/Loc.vo Model/Loc.glob Model/Loc.v.beautified Model/Loc.required_vo: Model/Loc.v Model/Val.vo Model/Syntax.vo Model/Step.vo Model/Spec.vo
+Model/Loc.vio: Model/Loc.v Model/Val.vio Model/Syntax.vio Model/Step.vio Model/Spec.vio
+Model/Loc.vos Model/Loc.vok Model/Loc.required_vos: Model/Loc.v Model/Val.vos Model/Syntax.vos Model/Step.vos Model/Spec.vos
+Model/Oracle.vo Model/Oracle.glob Model/Oracle.v.beautified Model/Oracle.required_vo: Model/Oracle.v Model/Val.vo Model/Syntax.vo Model/World.vo Model/Step.vo Model/Spec.vo Model/Loc.vo
+Model/Oracle.vio: Model/Oracle.v Model/Val.vio Model/Syntax.vio Model/World.vio Model/Step.vio Model/Spec.vio Model/Loc.vio
+Model/Oracle.vos Model/Oracle.vok Model/Oracle.required_vos: Model/Oracle.v Model/Val.vos Model/Syntax.vos Model/World.vos Model/Step.vos Model/Spec.vos Model/Loc.vos
 Proofs/Contract.vo Proofs/Contract.glob Proofs/Contract.v.beautified Proofs/Contract.required_vo: Proofs/Contract.v Model/Val.vo Model/Syntax.vo Model/World.vo Model/Step.vo Model/Oracle.vo
 Proofs/Contract.vio: Proofs/Contract.v Model/Val.vio Model/Syntax.vio Model/World.vio Model/Step.vio Model/Oracle.vio
 Proofs/Contract.vos Proofs/Contract.vok Proofs/Contract.required_vos: Proofs/Contract.v Model/Val.vos Model/Syntax.vos Model/World.vos Model/Step.vos Model/Oracle.vos
+Proofs/LocBase.vo Proofs/LocBase.glob Proofs/LocBase.v.beautified Proofs/LocBase.required_vo: Proofs/LocBase.v Model/Val.vo Model/Syntax.vo Model/Step.vo Model/Spec.vo Model/Loc.vo
+Proofs/LocBase.vio: Proofs/LocBase.v Model/Val.vio Model/Syntax.vio Model/Step.vio Model/Spec.vio Model/Loc.vio
+Proofs/LocBase.vos Proofs/LocBase.vok Proofs/LocBase.required_vos: Proofs/LocBase.v Model/Val.vos Model/Syntax.vos Model/Step.vos Model/Spec.vos Model/Loc.vos
+Proofs/LocOpsA.vo Proofs/LocOpsA.glob Proofs/LocOpsA.v.beautified Proofs/LocOpsA.required_vo: Proofs/LocOpsA.v Model/Val.vo Model/Syntax.vo Model/Step.vo Model/Spec.vo Model/Loc.vo Proofs/LocBase.vo
+Proofs/LocOpsA.vio: Proofs/LocOpsA.v Model/Val.vio Model/Syntax.vio Model/Step.vio Model/Spec.vio Model/Loc.vio Proofs/LocBase.vio
+Proofs/LocOpsA.vos Proofs/LocOpsA.vok Proofs/LocOpsA.required_vos: Proofs/LocOpsA.v Model/Val.vos Model/Syntax.vos Model/Step.vos Model/Spec.vos Model/Loc.vos Proofs/LocBase.vos
 Props/C01.vo Props/C01.glob Props/C01.v.beautified Props/C01.required_vo: Props/C01.v Model/Val.vo Model/Syntax.vo Model/World.vo Model/Step.vo Model/Oracle.vo Proofs/Contract.vo
 Props/C01.vio: Props/C01.v Model/Val.vio Model/Syntax.vio Model/World.vio Model/Step.vio Model/Oracle.vio Proofs/Contract.vio
 Props/C01.vos Props/C01.vok Props/C01.required_vos: Props/C01.v Model/Val.vos Model/Syntax.vos Model/World.vos Model/Step.vos Model/Oracle.vos Proofs/Contract.vos
